@@ -101,6 +101,10 @@ def run_case(rng, idx, tier):
             viol.append({"key": dict(k, kind="support-budget-exceeded"), "err": float(n),
                          "msg": "%s used %d support evaluations" % (name, n)})
         if not _finite_all(res):
+            if name == "mpr_penetration" and isinstance(res, (tuple, list)) and len(res) == 4 and res[1] is not None:
+                # mechanism predicate for K23: touching contact (depth 0 up to rounding) with a NaN contact position only
+                k["touching_depth"] = bool(abs(float(res[1])) <= 1e-9)
+                k["only_position_nan"] = bool(np.all(np.isfinite(np.asarray(res[2], float))) and np.isfinite(res[1]))
             viol.append({"key": dict(k, kind="non-finite-output", pair="%s|%s" % (O.base_kind(sA), O.base_kind(sB))), "err": None,
                          "msg": "%s(%s,%s) [%s] returned a non-finite value: %r" % (name, names[0], names[1], cls, res)[:400]})
 
